@@ -824,7 +824,7 @@ pub fn run_breadth(cx: &mut Ctx, th: bool) {
         let n = r.range(2, 10) as usize;
         let ops = rand_pz_ops(&mut r, n, 400);
         let (cfgv, dictv) = (r.below(N_CFGV as u64) as usize, r.below(N_DICTV as u64) as usize);
-        let (tk, tn, ts) = (r.below(7), *r.pick(&[8usize, 130, 600, 2500]), r.below(1000));
+        let (tk, tn, ts) = (r.below(7), *r.pick(&[0usize, 1, 4, 8, 130, 130, 600, 600, 2500, 2500]), r.below(1000));
         cx.rng = r;
         pazip_hist_case(cx, cfgv, dictv, tk, tn, ts, &ops);
     }
